@@ -21,6 +21,11 @@ EXPLANATION = (
     "sequence first, no match, parameter forms, newlines) is decided on one representative input per case.  R6 parse() "
     "alternates text and updates completely and in order (representative inputs incl. line-boundary characters and an 8-bit "
     "CSI in the tail).  S the memoised terminal string cannot go stale."
+    "  R7 / R8 the statement itself on concrete values (bounded): from_str(str(f)) is interpreted for 120+ run layouts (1-3 runs, six "
+    "attribute sets, texts with newlines, CR LF, tab, control characters, wide characters, parameter look-alikes, empty runs) "
+    "and must give f's characters with f's formatting; every string of up to 3 (thorough 4) tokens of the grammar "
+    "(text | ESC[ p1;..;pn m)* with parameter lists [], [0], single codes, pairs and triples of supported codes is read by "
+    "from_str and every character must get the state the reference SGR machine has at that point."
 )
 NOT_DECIDED = ("behaviour of re.match itself; that the terminal string contains no ESC in its text (excluded by C01's "
                "quantifier); interaction with unsupported codes (C17).")
@@ -254,6 +259,96 @@ def rule_r4(src, rep, fold, counts):
     return fgc, bgc, sty
 
 
+def rule_concrete(src, rep, it, counts):
+    """R7 / R8: the statement itself, on concrete values - from_str(str(f)) against f for run layouts with awkward texts, and every
+    string of up to 3 (thorough 4) tokens of the grammar (text | ESC[ p1;..;pn m)* against the reference SGR machine."""
+    import itertools
+    from ..par import pmap
+    from ..models import cells, mk_fmtstr, runs_of
+    f = src.func("formatstring", "FmtStr.from_str")
+    pool = [{}, {"fg": 31}, {"bg": 44, "bold": True}, {"fg": 32, "underline": True, "invert": True}, {"dark": True, "italic": True, "blink": True},
+            {"fg": 37, "bg": 40}]
+    texts = ["a", "x\ny", "\t ", "\u00e9\uff25", "", "q\r\n", "[1m", "\x07\x08"]
+    layouts = []
+    for a in pool:
+        for t in texts:
+            layouts.append([(t, a)])
+    for a, b in itertools.product(pool, repeat=2):
+        layouts.append([("ab", a), ("c\nd", b)])
+        layouts.append([("", a), ("z", b)])
+    for a, b, c in itertools.product(pool[:4], repeat=3):
+        layouts.append([("a", a), ("\n", b), ("c", c)])
+
+    def st(a):
+        return sgr.expected_state(a.get("fg"), a.get("bg"), {k: v for k, v in a.items() if k not in ("fg", "bg")})
+
+    def one_layout(runs):
+        obj = mk_fmtstr(it, *runs)
+        r = it.call1("formatstring", "FmtStr.__str__", obj)
+        if r[0] != "ok" or not isinstance(r[1], str):
+            return ("error", "str(f) not evaluable for %s: %s" % (runs, r))
+        r2 = it.call1("formatstring", "FmtStr.from_str", r[1])
+        if r2[0] == "opaque":
+            return ("error", "from_str outside the evaluated subset for %r: %s" % (r[1], r2[1]))
+        want = [(ch, st(a)) for t, a in runs for ch in t]
+        if r2[0] != "ok":
+            return ("R7-from_str-of-str-gives-the-same-cells", str(runs), "from_str(str(f)) raises %s for f = %s" % (r2[1], runs))
+        got = [(ch, st(dict(e))) for ch, e in cells(runs_of(r2[1]))]
+        if got != want:
+            return ("R7-from_str-of-str-gives-the-same-cells", str(runs), "f = %s: str(f) = %r reads back as %s" % (runs, r[1], runs_of(r2[1])))
+        return None
+
+    params = [[], [0], [1], [4], [7], [31], [39], [44], [49], [1, 31], [31, 1], [0, 4], [44, 32, 2], [39, 49]]
+    toks = [("t", "a"), ("t", "b\n")] + [("s", p) for p in params]
+    maxlen = 4 if rep.tier == "thorough" else 3
+    strings = []
+    for n in range(1, maxlen + 1):
+        for combo in itertools.product(toks, repeat=n):
+            if any(k == "t" for k, _ in combo):
+                strings.append(combo)
+
+    def one_string(combo):
+        s_ = "".join(v if k == "t" else "\x1b[%sm" % ";".join(map(str, v)) for k, v in combo)
+        state = sgr.DEFAULT
+        want = []
+        for k, v in combo:
+            if k == "t":
+                want.extend((ch, state) for ch in v)
+            else:
+                state = sgr.apply_params(state, v)
+        r = it.call1("formatstring", "FmtStr.from_str", s_)
+        if r[0] == "opaque":
+            return ("error", "from_str outside the evaluated subset for %r: %s" % (s_, r[1]))
+        if r[0] != "ok":
+            return ("R8-grammar-strings-read-as-a-terminal-would-display-them", s_, "from_str(%r) raises %s" % (s_, r[1]))
+        got = [(ch, st(dict(e))) for ch, e in cells(runs_of(r[1]))]
+        if got != want:
+            k = next((i for i, (a, b) in enumerate(zip(got, want)) if a != b), min(len(got), len(want)))
+            return ("R8-grammar-strings-read-as-a-terminal-would-display-them", s_,
+                    "from_str(%r): character %d is read as %s, a terminal displays %s" % (s_, k, got[k] if k < len(got) else None, want[k] if k < len(want) else None))
+        return None
+    res = pmap(one_layout, layouts, min_chunk=16) + pmap(one_string, strings, min_chunk=64)
+    bad = {}
+    for x in res:
+        rep.case(True)
+        if x is None:
+            continue
+        if x[0] == "error":
+            raise AnalysisError(x[1])
+        bad.setdefault(x[0], []).append(x[1:])
+    for rule, group in (("R7-from_str-of-str-gives-the-same-cells", "%d run layouts with concrete texts" % len(layouts)),
+                        ("R8-grammar-strings-read-as-a-terminal-would-display-them", "every string of up to %d grammar tokens" % maxlen)):
+        items = bad.get(rule, [])
+        if items:
+            items.sort(key=lambda y: len(y[0]))
+            rep.ob(rule, f.where(), f.scope, group.split(" ", 1)[1] if group[0].isdigit() else group, False,
+                   "%s (%d cases fail this rule)" % (items[0][1], len(items)), witness={"input": items[0][0]})
+        else:
+            rep.ob(rule, f.where(), f.scope, group.split(" ", 1)[1] if group[0].isdigit() else group, True)
+    counts["concrete_layouts"] = len(layouts)
+    counts["grammar_strings"] = len(strings)
+
+
 def check(src, rep):
     rep.explanation = EXPLANATION
     rep.not_decided = NOT_DECIDED
@@ -280,7 +375,9 @@ def check(src, rep):
     rep.guard(cache_coherence, src, rep)
     # R3 composes single-run round trips: that needs str(f) to be the runs' own strings joined in order (C01's J rules)
     rep.guard(joining, src, rep, it, writer)
+    rep.guard(rule_concrete, src, rep, it, counts)
     rep.extracted["counts"] = counts
     rep.floor("supported SGR codes read", counts.get("supported_codes", 0), 20)
     rep.floor("round-trip attribute sets", counts.get("round_trip_sets", 0), 5000)
     rep.floor("tokenizer patterns", counts.get("tokenizer_patterns", 0), 2)
+    rep.floor("grammar strings", counts.get("grammar_strings", 0), 1000)
